@@ -128,6 +128,103 @@ def read_only_uses(p: Program, name: str, defining_module: str) -> List[str]:
     return bad
 
 
+MUTATORS = {"append", "extend", "insert", "remove", "pop", "clear", "add", "discard", "update", "setdefault", "sort", "reverse",
+            "popitem", "__setitem__", "__delitem__"}
+
+
+def _mutating_methods(c) -> set:
+    out = set()
+    for k in c.mro():
+        for mname, f in k.methods.items():
+            if mname in ("__init__", "__post_init__", "__new__"):
+                continue
+            for n in ast.walk(f.node):
+                hit = False
+                if isinstance(n, (ast.Assign, ast.AugAssign, ast.AnnAssign)):
+                    for t in (n.targets if isinstance(n, ast.Assign) else [n.target]):
+                        if isinstance(t, (ast.Attribute, ast.Subscript)) and any(
+                                isinstance(x, ast.Name) and x.id in ("self", "cls") for x in ast.walk(t)):
+                            hit = True
+                if isinstance(n, ast.Delete) and any(isinstance(x, ast.Name) and x.id in ("self", "cls") for t in n.targets for x in ast.walk(t)):
+                    hit = True
+                if isinstance(n, ast.Call) and isinstance(n.func, ast.Attribute) and n.func.attr in MUTATORS and any(
+                        isinstance(x, ast.Name) and x.id in ("self", "cls") for x in ast.walk(n.func.value)):
+                    hit = True
+                if hit:
+                    out.add(mname)
+    return out
+
+
+def filled_at_import_only(p: Program, module: str, name: str, call: ast.Call) -> bool:
+    """a module-level instance of a repository class whose mutating methods are only ever called on it by module-level
+    statements of its own module (a registry filled while the module is imported, constant from then on), and which is not
+    handed out in any way that would let other code mutate it (uses are method calls and iteration only)"""
+    c = p.try_class(_dotted(call.func).split(".")[-1])
+    if c is None:
+        return False
+    mut = _mutating_methods(c)
+    for m in p.modules.values():
+        imported = m.name == module or any(
+            isinstance(n, ast.ImportFrom) and any((a.asname or a.name) == name for a in n.names) for n in ast.walk(m.tree))
+        if not imported:
+            continue
+        top = {id(st.value) for st in m.tree.body if isinstance(st, ast.Expr)} if m.name == module else set()
+        parents = {}
+        for node in ast.walk(m.tree):
+            for ch in ast.iter_child_nodes(node):
+                parents[id(ch)] = node
+        for n in ast.walk(m.tree):
+            if not (isinstance(n, ast.Name) and n.id == name and isinstance(n.ctx, ast.Load)):
+                continue
+            par = parents.get(id(n))
+            if isinstance(par, ast.Attribute) and par.value is n:
+                gp = parents.get(id(par))
+                if isinstance(gp, ast.Call) and gp.func is par:
+                    if par.attr in mut and id(gp) not in top:
+                        return False          # mutated from inside a function
+                    continue
+                return False                  # a field of the object is taken (could be mutated through it)
+            if isinstance(par, (ast.For, ast.comprehension)) and getattr(par, "iter", None) is n:
+                continue
+            return False                      # aliased, passed on, returned ...
+    return True
+
+
+def immutable_instance(p: Program, call: ast.Call) -> bool:
+    """is `call` the construction of an object that nothing can change afterwards: a bare object() sentinel, a NamedTuple or
+    frozen dataclass of the repository, or an instance of a repository class none of whose methods (outside
+    __init__/__post_init__/__new__) assigns, deletes or mutates anything reachable through self"""
+    name = _dotted(call.func).split(".")[-1]
+    if name == "object" and not call.args and not call.keywords:
+        return True
+    c = p.try_class(name)
+    if c is None:
+        return False
+    if "NamedTuple" in c.all_extern_bases() or any("frozen=True" in d.replace(" ", "") for k in c.mro() for d in k.decorators):
+        return True
+    for k in c.mro():
+        for mname, f in k.methods.items():
+            if mname in ("__init__", "__post_init__", "__new__"):
+                continue
+            for n in ast.walk(f.node):
+                tgt = None
+                if isinstance(n, (ast.Assign, ast.AugAssign, ast.AnnAssign)):
+                    for t in (n.targets if isinstance(n, ast.Assign) else [n.target]):
+                        if isinstance(t, (ast.Attribute, ast.Subscript)) and any(
+                                isinstance(x, ast.Name) and x.id in ("self", "cls") for x in ast.walk(t)):
+                            tgt = t
+                if isinstance(n, ast.Delete):
+                    for t in n.targets:
+                        if any(isinstance(x, ast.Name) and x.id in ("self", "cls") for x in ast.walk(t)):
+                            tgt = t
+                if isinstance(n, ast.Call) and isinstance(n.func, ast.Attribute) and n.func.attr in MUTATORS and any(
+                        isinstance(x, ast.Name) and x.id in ("self", "cls") for x in ast.walk(n.func.value)):
+                    tgt = n
+                if tgt is not None:
+                    return False
+    return True
+
+
 def global_state(p: Program) -> List[Tuple[str, str, str, str]]:
     """(kind, qualified name, where, detail) of every piece of process-global mutable state"""
     items: List[Tuple[str, str, str, str]] = []
@@ -139,7 +236,8 @@ def global_state(p: Program) -> List[Tuple[str, str, str, str]]:
             if is_mutable_value(v):
                 mod_level[name] = (m.name, v, node.lineno)
             elif isinstance(v, ast.Call) and _dotted(v.func).split(".")[-1] not in (
-                    "compile", "frozenset", "tuple", "Path", "str", "int", "TypeVar", "namedtuple", "auto", "field"):
+                    "compile", "frozenset", "tuple", "Path", "str", "int", "TypeVar", "namedtuple", "auto", "field") and \
+                    not immutable_instance(p, v) and not filled_at_import_only(p, m.name, name, v):
                 items.append(("module-level object", f"{m.name}.{name}", f"{m.rel()}:{node.lineno}",
                               f"= {_dotted(v.func)}(...)"))
         for c in m.classes.values():
@@ -152,7 +250,7 @@ def global_state(p: Program) -> List[Tuple[str, str, str, str]]:
                     cls_level.setdefault(name, (f"{c.name}", v, getattr(v, "lineno", 0)))
                 if isinstance(v, ast.Call) and _dotted(v.func).split(".")[-1] not in (
                         "compile", "frozenset", "tuple", "Path", "str", "int", "TypeVar", "namedtuple", "auto", "field",
-                        "Lock", "RLock", "getLogger", "property", "staticmethod", "classmethod"):
+                        "Lock", "RLock", "getLogger", "property", "staticmethod", "classmethod") and not immutable_instance(p, v):
                     # an object created once for the class: shared by every instance and every operation of the process
                     # (threading.local() / ContextVar: state that additionally depends on the calling thread)
                     items.append(("class-level object", f"{c.name}.{name}", f"{m.rel()}:{getattr(v, 'lineno', 0)}",
